@@ -216,9 +216,24 @@ class TrigTime:
                 cls.dow2int[name[0:3]] = idx
 
     @classmethod
-    async def wait_until(
+    async def wait_until(cls, ast_ctx, *args, **kwargs):
+        """Wait for zero or more triggers, until an optional timeout."""
+        subscriptions = []
+        try:
+            return await cls.wait_until_subscribed(ast_ctx, subscriptions, *args, **kwargs)
+        finally:
+            #
+            # release the subscriptions on every exit path, including cancellation
+            # of the waiting task and exceptions (notify_del is idempotent)
+            #
+            for notify_del, notify_args in subscriptions:
+                notify_del(*notify_args)
+
+    @classmethod
+    async def wait_until_subscribed(
         cls,
         ast_ctx,
+        subscriptions,
         state_trigger=None,
         state_check_now=True,
         time_trigger=None,
@@ -233,7 +248,7 @@ class TrigTime:
         state_hold_false=None,
         __test_handshake__=None,
     ):
-        """Wait for zero or more triggers, until an optional timeout."""
+        """Implement wait_until; every subscription made is recorded in subscriptions."""
         if (
             state_trigger is None
             and time_trigger is None
@@ -325,6 +340,7 @@ class TrigTime:
             )
             if len(state_trig_ident) > 0:
                 await State.notify_add(state_trig_ident, notify_q)
+                subscriptions.append((State.notify_del, (state_trig_ident, notify_q)))
         if event_trigger is not None:
             if isinstance(event_trigger, str):
                 event_trigger = [event_trigger]
@@ -342,6 +358,7 @@ class TrigTime:
                         State.notify_del(state_trig_ident, notify_q)
                     raise
             Event.notify_add(event_trigger[0], notify_q)
+            subscriptions.append((Event.notify_del, (event_trigger[0], notify_q)))
         if mqtt_trigger is not None:
             if isinstance(mqtt_trigger, str):
                 mqtt_trigger = [mqtt_trigger]
@@ -359,6 +376,7 @@ class TrigTime:
                         State.notify_del(state_trig_ident, notify_q)
                     raise
             await Mqtt.notify_add(mqtt_trigger[0], notify_q, encoding=mqtt_trigger_encoding)
+            subscriptions.append((Mqtt.notify_del, (mqtt_trigger[0], notify_q)))
         if webhook_trigger is not None:
             if isinstance(webhook_trigger, str):
                 webhook_trigger = [webhook_trigger]
@@ -378,6 +396,7 @@ class TrigTime:
             if webhook_methods is None:
                 webhook_methods = {"POST", "PUT"}
             Webhook.notify_add(webhook_trigger[0], webhook_local_only, webhook_methods, notify_q)
+            subscriptions.append((Webhook.notify_del, (webhook_trigger[0], notify_q)))
 
         time0 = time.monotonic()
 
